@@ -68,6 +68,12 @@ func allLinks() []wire.Config {
 			}
 		}
 	}
+	// the client's first message is already waiting when the server session starts reading
+	for _, k := range []string{wire.InMem, wire.Pipe} {
+		for _, sub := range []string{"legacy", "legacy-old"} {
+			out = append(out, wire.Config{Kind: k, Subset: sub, ClientFirst: true})
+		}
+	}
 	// stateful endpoint that issues no session ids (GetSessionID returns ""): still a stateful HTTP endpoint
 	for _, j := range []bool{false, true} {
 		out = append(out, wire.Config{Kind: wire.Stateful, JSON: j, EmptySessionID: true})
